@@ -843,4 +843,80 @@ theorem readlinesLoop_shape : ∀ (f : Nat) (s : St) (hint : Option Nat) (len : 
         · simp only [Except.ok.injEq] at h; subst h; exact hacc'
         · exact ih s' (some hh) _ _ ls hacc' h
 
+/-! ### iteration (`for line in stream`) -/
+
+/-- one successful `__next__`: a single non-empty line, the object advanced by exactly that line -/
+theorem runOp_next_ok {s s' : St} {bs : List Bytes} (h : runOp s .next = (.ok bs, s')) :
+    ∃ l, bs = [l] ∧ l ≠ [] ∧ LineShaped l ∧ Adv s s' l := by
+  obtain ⟨d, hadv, hok, _⟩ := next_spec s
+  have hsh := next_shape s
+  simp only [runOp] at h
+  rcases hn : next s with ⟨r, s1⟩
+  rw [hn] at h hadv hok hsh
+  cases r with
+  | error e => simp [single] at h
+  | ok l =>
+    simp only [single, Prod.mk.injEq, Except.ok.injEq] at h
+    obtain ⟨h1, h2⟩ := h
+    subst h1 h2
+    have hd := hok l rfl
+    subst hd
+    exact ⟨l, rfl, (hsh l rfl).1, (hsh l rfl).2, hadv⟩
+
+/-- `for line in stream` is nothing but a run of `__next__` calls: every theorem about operation
+sequences applies to it -/
+theorem iterLoop_eq_runOps : ∀ (f : Nat) (s : St),
+    iterLoop f s = runOps s (List.replicate (iterLoop f s).1.length Op.next) := by
+  intro f
+  induction f with
+  | zero => intro s; simp [iterLoop, runOps]
+  | succ f ih =>
+    intro s
+    rcases hr : runOp s .next with ⟨r, s'⟩
+    cases r with
+    | error e => simp [iterLoop, hr, runOps, List.replicate]
+    | ok l =>
+      have h1 : iterLoop (f + 1) s = (.ok l :: (iterLoop f s').1, (iterLoop f s').2) := by
+        simp [iterLoop, hr]
+      rw [h1]
+      simp only [List.length_cons, List.replicate_succ, runOps, hr]
+      rw [← ih s']
+
+/-- the loop always ends in an exception (`StopIteration` or one of the documented ones), never
+because the fuel of the model ran out; every line before it is non-empty and line-shaped -/
+theorem iterLoop_ends : ∀ (f : Nat) (s : St), Inv s → s.limit - s.pos < f →
+    ∃ (ls : List Bytes) (e : String), (iterLoop f s).1 = ls.map (fun l => (Except.ok [l] : LRes)) ++ [.error e] ∧
+      (∀ l ∈ ls, l ≠ [] ∧ LineShaped l) ∧ (OkErr s e ∨ e = "StopIteration") := by
+  intro f
+  induction f with
+  | zero => intro s _ hf; omega
+  | succ f ih =>
+    intro s hi hf
+    rcases hr : runOp s .next with ⟨r, s'⟩
+    cases r with
+    | error e =>
+      obtain ⟨_, _, _, herr⟩ := runOp_spec s .next
+      exact ⟨[], e, by simp [iterLoop, hr], by simp, herr e (by rw [hr])⟩
+    | ok bs =>
+      obtain ⟨l, hbs, hne, hsh, hadv⟩ := runOp_next_ok hr
+      subst hbs
+      have hpos : 0 < l.length := List.length_pos_iff.mpr hne
+      have hi' := hadv.inv hi
+      have hlt : s'.limit - s'.pos < f := by
+        rw [hadv.limit_eq, hadv.pos_eq]
+        have := hi'.pos_le
+        rw [hadv.limit_eq, hadv.pos_eq] at this
+        omega
+      obtain ⟨ls, e, h1, h2, h3⟩ := ih s' hi' hlt
+      refine ⟨l :: ls, e, ?_, ?_, ?_⟩
+      · simp [iterLoop, hr, h1]
+      · intro x hx
+        simp only [List.mem_cons] at hx
+        rcases hx with rfl | hx
+        · exact ⟨hne, hsh⟩
+        · exact h2 x hx
+      · rcases h3 with h3 | h3
+        · exact Or.inl (OkErr.of_adv hadv h3)
+        · exact Or.inr h3
+
 end Wz.LS
